@@ -164,7 +164,12 @@ def spec_case(ctx, rng):
         if not (ferm and odd):
             judge("utils.from_dense", [], lambda: sr.utils.from_dense(dense, sym, maps, duals=duals, fermionic=ferm, charge=charge), exp_sparse, want_cls=gen.static_class(sr, sym, ferm))
     # ---- to_dense -> from_dense round trip
-    x0 = cls(indices=idx, charge=charge, blocks=dict(blocks), **extra, **okw)
+    rt_blocks = dict(blocks)
+    if len(rt_blocks) >= 2 and rng.random() < 0.15:
+        # blocks of several element types (narrow or wide first): the dense form must hold all
+        rt_blocks, _ = gen.mix_block_dtypes(rng, rt_blocks)
+        ctx.count("feature", "roundtrip-mixed-dtype-blocks")
+    x0 = cls(indices=idx, charge=charge, blocks=rt_blocks, **extra, **okw)
     if ferm:
         gen.add_phases(rng, x0, rng.choice([0, 1, 2]))
     o = ctx.call(x0.to_dense)
